@@ -47,3 +47,40 @@ Example C10_hypotheses_inhabited :
   state_ok [mkP 5 (-7) 0 9223372036854775807 (-9223372036854775808) 3] /\
   In (4%nat, (s5odr4_stages, s5odr4_gamma)) janus_schemes.
 Proof. split; [repeat constructor; unfold in64, two63; cbn; try lia | cbn; auto]. Qed.
+
+(* ------------------------------------------------------------------ SEI (over the Coq reals) *)
+From Coq Require Import Reals.
+From RV Require Import Common.Num Common.RealNum C10.Sei C10.SeiProofs.
+Local Open Scope R_scope.
+
+(* SEI: n steps with dt followed by n steps with -dt ON THE SAME SIMULATION (the cache of pre-computed sin/tan
+   values is part of the state and is refreshed by the code's own lastdt != dt test) return every particle to
+   its initial position and velocity, in exact arithmetic, for any number of particles and steps, any dt, any
+   OMEGA, OMEGAZ <> 0, any force that depends on positions only, and any sin/tan oracle that is odd in dt *)
+Theorem C10_sei_reversible :
+  forall (OM OMZ : R), OM <> 0 -> OMZ <> 0 ->
+  forall trig, (forall dt, trig (- dt) = neg4 (trig dt)) ->
+  forall F, (forall ps ps', map pos ps = map pos ps' -> F ps = F ps') ->
+  forall n dt c ps, cache_ok trig c ->
+    snd (iter_sei RNum OM OMZ trig F n (- dt) (iter_sei RNum OM OMZ trig F n dt (c, ps))) = ps.
+Proof. exact sei_reversible. Qed.
+Print Assumptions C10_sei_reversible.
+
+(* the state of a freshly reset integrator meets the cache hypothesis *)
+Theorem C10_sei_reset_cache_ok :
+  forall trig, (forall dt, trig (- dt) = neg4 (trig dt)) -> cache_ok trig (mkCache 0 0 0 0 0).
+Proof. exact reset_cache_ok. Qed.
+Print Assumptions C10_sei_reset_cache_ok.
+
+(* non-vacuity: sin and tan give an odd oracle *)
+Example C10_sei_hypotheses_inhabited :
+  let trig := fun dt => (sin (1 * (- dt / 2)), tan (1 * (- dt / 4)), sin (2 * (- dt / 2)), tan (2 * (- dt / 4))) in
+  forall dt, trig (- dt) = neg4 (trig dt).
+Proof.
+  intros trig dt. unfold trig, neg4.
+  replace (1 * (- - dt / 2)) with (- (1 * (- dt / 2))) by field.
+  replace (1 * (- - dt / 4)) with (- (1 * (- dt / 4))) by field.
+  replace (2 * (- - dt / 2)) with (- (2 * (- dt / 2))) by field.
+  replace (2 * (- - dt / 4)) with (- (2 * (- dt / 4))) by field.
+  rewrite !sin_neg, !tan_neg. reflexivity.
+Qed.
